@@ -105,7 +105,7 @@ def run():
     ctx = oblig.Ctx()
     prog = ctx.lib
     oblig.install_battery(rep, ctx, ["c02_battery", "c08_battery", "c04_battery", "c06_battery"])
-    part_common.add(rep, prog, ["retention-count", "no-loss-no-dup", "atomic-subgroups", "patterns", "stale-filter", "mtime-check"], "C02", part_common.make_replayer(ctx))
+    part_common.add(rep, prog, ["retention-count", "no-loss-no-dup", "atomic-subgroups", "patterns", "stale-filter", "mtime-check", "subgroup-args"], "C02", part_common.make_replayer(ctx))
     try:
         script_obligation(rep, prog)
     except Inconclusive as ex:
